@@ -28,7 +28,8 @@ RULE = ("every assignment of the 10 limit patterns {(-inf,inf),(-inf,b),(a,inf),
         "(NaN,NaN),(a,a+2^-21)} (+2 wrong-side patterns for linear) to 1..3 components (4 thorough) of one constraint object, "
         "linear and nonlinear, x every value vector over {below lb, lb, inside, ub, above ub}; scalar-broadcast limits; "
         "NaN coefficients; and every ordered sequence of 0..2 linear and 0..2 nonlinear objects (3 thorough) from a "
-        "6-object menu through minimize(maxfev=1) at 25 points. Non-trivial = (pattern, values) pair with a positive "
+        "6-object menu through minimize(maxfev=1) at 25 points; the one- and two-object sequences again with every "
+        "non-empty subset of the two variables fixed by equal bounds at every value, with and without scale=True. Non-trivial = (pattern, values) pair with a positive "
         "excess; distinct = distinct (configuration, value vector).")
 
 PATS = [(-INF, INF), (-INF, B_), (A_, INF), (A_, B_), (A_, A_), (A_, float(np.nextafter(A_, INF))),
@@ -111,6 +112,10 @@ def roots(tier, seed):
             for order in sorted(set(itertools.permutations("L" * nl + "N" * nn))):
                 for first in range(6):
                     out.append({"part": "seq", "order": "".join(order), "first": first})
+    # the same objects with variables fixed by equal bounds, with and without scaling (one or two objects)
+    for order in ("L", "N", "LL", "LN", "NL") + (("NN", "LLN") if tier == "thorough" else ()):
+        for first in range(6):
+            out.append({"part": "fixed", "order": order, "first": first})
     return alpha.permute(out, seed)
 
 
@@ -233,6 +238,63 @@ def check_seq(order, first, stats, viol):
                 return
 
 
+def check_fixed(order, first, stats, viol):
+    """The same objects when some variables are fixed by equal bounds (the solver then eliminates them and
+    re-states the linear constraints in the remaining variables), with and without scaling: rows that involve
+    fixed variables only become constants and must still count."""
+    for rest in itertools.product(range(len(SEQ_OBJS)), repeat=len(order) - 1):
+        idx = (first,) + tuple(rest)
+        objs, metas = [], []
+        for kind, i in zip(order, idx):
+            o, m = make_obj(kind, SEQ_OBJS[i])
+            objs.append(o)
+            metas.append((kind, m))
+        for fixed in ((0,), (1,), (0, 1)):
+            for scale in (False, True):
+                for v in itertools.product(VALS, repeat=2):
+                    # fixed variables sit at v[i] (lb = ub = v[i]); the others start inside [-4, 4]
+                    lbs = [v[i] if i in fixed else -4.0 for i in range(2)]
+                    ubs = [v[i] if i in fixed else 4.0 for i in range(2)]
+                    x0 = np.array(v, float)
+                    case = {"part": "fixed1", "order": order, "idx": list(idx), "fixed": list(fixed), "scale": scale,
+                            "v": list(v)}
+                    with warnings.catch_warnings():
+                        warnings.simplefilter("ignore")
+                        with np.errstate(all="ignore"):
+                            try:
+                                res = cobyqa.minimize(lambda x: 0.0, x0, bounds=list(zip(lbs, ubs)), constraints=objs,
+                                                      options={"maxfev": 1, "scale": scale})
+                                mv = float(res.maxcv)
+                            except Exception as e:  # noqa
+                                viol.setdefault("fixed-exception", {"key": "fixed-exception", "case": case,
+                                                                    "what": f"minimize raised {type(e).__name__}: {e}"})
+                                return
+                    # the single evaluation is made at the returned point (the solver may move the free coordinates
+                    # of x0 away from nearby bounds); the fixed coordinates must be the fixed values
+                    xr = np.asarray(res.x, float)
+                    if any(xr[i] != v[i] for i in fixed):
+                        viol.setdefault("fixed-value-changed", {"key": "fixed-value-changed", "case": case,
+                                                                "what": f"a fixed variable was returned as {xr.tolist()}"})
+                        return
+                    ex = slack = 0.0
+                    for kind, (A, lb, ub) in metas:
+                        _, _, comps = expected(lb, ub, kind == "L")
+                        e, sl = excess(comps, A @ xr)
+                        ex, slack = max(ex, e), max(slack, sl)
+                    stats["fixed_runs"] = stats.get("fixed_runs", 0) + 1
+                    if ex > 0:
+                        stats["fixed_positive_excess"] = stats.get("fixed_positive_excess", 0) + 1
+                    # scaling maps the free variables through an affine map and back: a few ulps of the values
+                    tol = slack + (4e-16 if not scale else 4e-15) * max(1.0, abs(ex), 4.0)
+                    if not (abs(mv - ex) <= tol):
+                        viol.setdefault("res-maxcv:fixed", {
+                            "key": "res-maxcv:fixed", "case": case,
+                            "what": f"objects {order}{list(idx)}, variables {list(fixed)} fixed at {[v[i] for i in fixed]}"
+                                    f"{' (scale=True)' if scale else ''}, evaluated at {xr.tolist()}: res.maxcv={mv}, largest interval "
+                                    f"excess {ex}"})
+                        return
+
+
 def check_broadcast(kind, p, stats, viol):
     lo, hi = PATS[p]
     k = 3
@@ -332,6 +394,10 @@ def run_case(root):
         check_seq(root["order"], root["first"], stats, viol)
     elif part == "seq1":
         check_seq(root["order"], root["idx"][0], stats, viol)
+    elif part == "fixed":
+        check_fixed(root["order"], root["first"], stats, viol)
+    elif part == "fixed1":
+        check_fixed(root["order"], root["idx"][0], stats, viol)
     elif part == "broadcast":
         check_broadcast(root["kind"], root["p"], stats, viol)
     elif part == "nancoef":
@@ -344,8 +410,9 @@ def run_case(root):
 def coverage(agg, tier, roots_):
     s = agg.stats
     herr = [f"non-vacuity counter {k} is zero" for k in
-            ("configs", "evals", "positive_excess", "seq_runs", "broadcast_runs", "nancoef", "aliased_runs") if not s.get(k)]
-    total = int(s.get("evals", 0) + s.get("seq_runs", 0) + s.get("broadcast_runs", 0))
+            ("configs", "evals", "positive_excess", "seq_runs", "broadcast_runs", "nancoef", "aliased_runs", "fixed_runs",
+             "fixed_positive_excess") if not s.get(k)]
+    total = int(s.get("evals", 0) + s.get("seq_runs", 0) + s.get("broadcast_runs", 0) + s.get("fixed_runs", 0))
     cov = {"evaluations": total, "distinct_nontrivial": int(s.get("positive_excess", 0)), "rule": RULE,
            "exhaustive": True, "roots": len(roots_), "limit_configurations": int(s.get("configs", 0)),
            "non_vacuity": {k: int(v) for k, v in sorted(s.items())},
